@@ -168,7 +168,7 @@ def claims(tier):
     cl = []
     K = 1 if q else 2
     for deg in range(1, 8):
-        cl.append(Claim("history[deg=%d]" % deg, c11_history, params={"deg": deg}, group="c11_history", pre=[lambda pi, name, o, acc: 0 <= pi < (4 if q else len(PRIOR)) and spelled(name, 1) and 2 <= o <= 6 and spelled("C" + acc, 1)], timeout=900 if q else 3000, bounds="prior: %d representative transpositions; query: name = letter + {#,b}^<=1, octave 2..6, shorthand {#,b}^<=1 + '%d', up and down (symbolic)" % (4 if q else len(PRIOR), deg)))
+        cl.append(Claim("history[deg=%d]" % deg, c11_history, params={"deg": deg}, group="c11_history", pre=[lambda pi, name, o, acc: 0 <= pi < (2 if q else len(PRIOR)) and spelled(name, 1) and 2 <= o <= 6 and spelled("C" + acc, 1)], timeout=900 if q else 3000, bounds="prior: %d representative transpositions; query: name = letter + {#,b}^<=1, octave 2..6, shorthand {#,b}^<=1 + '%d', up and down (symbolic)" % (2 if q else len(PRIOR), deg)))
         cl.append(Claim("note[deg=%d]" % deg, c11_note, params={"deg": deg, "K": K}, pre=[lambda name, o, acc: spelled(name, P["K"]) and 1 <= o <= 8 and spelled("C" + acc, 2)], timeout=900 if q else 3000, bounds="name = letter + {#,b}^<=%d; octave 1..8 symbolic; shorthand {#,b}^<=2 + '%d' restricted to size 0..11; up and down; up-then-down" % (K, deg)))
     cl.append(Claim("octave_floor", c11_octave_floor, pre=[lambda o: 0 <= o], timeout=300, bounds="octave >= 0, diff: every integer (unbounded)"))
     shapes = ["nc1", "nc2", "nc3", "bar_a", "bar_b", "track"]
